@@ -120,7 +120,10 @@ Definition dec_fdata (f : ffmt) : parser fdata :=
 Definition enc_fdata (f : ffmt) (v : fdata) : bytes :=
   let dt := f_dt f in
   (if has_colstatus f then bytes_of_le 1 (v_status v mod 256) else []) ++
-  (if is_fixed dt then [] else write_len (length_bytes dt) (zlen (v_data v))) ++ v_data v.
+  (if data_class dt =? 4
+   then (* text pointer: pointer length + pointer, timestamp, 4-byte data length, data *)
+        lp8 (v_txtptr v) ++ v_timestamp v ++ lp32 (v_data v)
+   else (if is_fixed dt then [] else write_len (length_bytes dt) (zlen (v_data v))) ++ v_data v).
 
 (* ------------------------------------------------------------------ trees *)
 Definition ffmt_tree (f : ffmt) : tree :=
